@@ -16,6 +16,7 @@ class Ctx:
     s = None            # current Sched
     env = None          # current Env
     installed = False
+    hot_names = frozenset()
     fs = None
     chunker_call_limit = None
     chunker_calls = 0
@@ -151,10 +152,19 @@ class SimChunkerNative:
         return self._c.next_cut(buffer, final)
 
 
+_SRC_PREFIX = None
+
+
 def _collect_codes(fn_or_code, out):
+    global _SRC_PREFIX
     c = getattr(fn_or_code, '__code__', fn_or_code)
-    if c in out:
+    if _SRC_PREFIX is None:
+        from .native import repo_src
+        _SRC_PREFIX = str(repo_src().resolve() / 'replicat') + '/'
+    if not isinstance(c, types.CodeType) or c in out:
         return
+    if not str(c.co_filename).startswith(_SRC_PREFIX):
+        return      # e.g. Enum.__new__ reached through a class defined in replicat: library code is never pre-empted
     out.append(c)
     for k in c.co_consts:
         if isinstance(k, types.CodeType):
@@ -169,10 +179,21 @@ def _on_line(code, line):
         if s.cur() is not None and s.cur() is not s.tasks[0]:
             raise core.SimAbort
         return
+    if s.events is not None and _TRACE_LINES:
+        s.events.append(f'line {code.co_name}:{line} {s.cur().name if s.cur() else None}')
+    hot = CTX.hot_names
+    if hot and s.hot_p and code.co_name in hot and s.cur() is not None:
+        # focus: pre-empt much more often inside the functions the property is about
+        if s.rng.random() < s.hot_p:
+            s.preemptions += 1
+            s.yield_()
+        return
     if s.preempt_p and s.cur() is not None:
         s.maybe_preempt()
 
 
+import os as _os_env
+_TRACE_LINES = bool(_os_env.environ.get('VERIF_TRACE_LINES'))
 _SNAPSHOT_VARIANTS = {}
 _orig_snapshot_code = None
 
@@ -230,8 +251,11 @@ def install_once():
                                     Full=_queue.Full, Empty=_queue.Empty)
     R.ThreadPoolExecutor = lambda max_workers=None, thread_name_prefix='': core.SimExecutor(
         _s(), max_workers, thread_name_prefix)
-    R.concurrent = types.SimpleNamespace(futures=types.SimpleNamespace(
-        as_completed=lambda fs, timeout=None: core.sim_as_completed(_s())(fs, timeout)))
+    import concurrent.futures as _cf
+    R.concurrent = _ModProxy(__import__('concurrent'), futures=_ModProxy(
+        _cf, as_completed=lambda fs, timeout=None: core.sim_as_completed(_s())(fs, timeout),
+        wait=lambda fs, timeout=None, return_when='ALL_COMPLETED': core.sim_wait(_s())(fs, timeout, return_when),
+        ThreadPoolExecutor=lambda max_workers=None, thread_name_prefix='': core.SimExecutor(_s(), max_workers, thread_name_prefix)))
     R.asyncio = _ModProxy(asyncio, run_coroutine_threadsafe=lambda coro, loop: core.sim_run_coroutine_threadsafe(
         _s())(coro, loop))
     # clocks
@@ -283,6 +307,21 @@ def install_once():
         targets.append(getattr(f, '__wrapped__', f))
     for fn in targets:
         _collect_codes(fn, codes)
+    # ... and every other function / method defined in those modules (a change may add a race anywhere)
+    import replicat.backends.s3c as _S3C
+    for mod in (R, U, A, L, B2, _S3C):
+        for obj in list(vars(mod).values()):
+            if isinstance(obj, types.FunctionType) and obj.__module__ == mod.__name__:
+                _collect_codes(obj, codes)
+            elif isinstance(obj, type) and obj.__module__ == mod.__name__:
+                for m in vars(obj).values():
+                    m = getattr(m, '__func__', m)
+                    m = getattr(m, 'fget', m) if isinstance(m, property) else m
+                    while hasattr(m, '__wrapped__'):
+                        _collect_codes(m, codes)
+                        m = m.__wrapped__
+                    if isinstance(m, types.FunctionType):
+                        _collect_codes(m, codes)
     CTX.codes = codes
     if tool is not None:
         mon.register_callback(tool, mon.events.LINE, _on_line)
